@@ -490,6 +490,10 @@ class SegEval:
                     c = self.columns(inner[2][0])
                     return Vec([(ONE, self.all_of(c))])
                 return self.columns(inner)
+            if name == "np.tile" and len(args) == 2:
+                # a vector of values cycled and flattened to one column (reshape(-1, 1)): the column takes every value
+                c = self.columns(args[0])
+                return Vec([(ONE, self.all_of(c))])
         if k == "elem" and len(sp[2]) == 1 and sp[2][0][0] == "app" and sp[2][0][1].startswith("cmp"):
             return self.columns(sp[1])  # boolean row filter keeps the column ranges
         raise AnalysisError(f"space term outside the vocabulary: {show(sp)[:120]}")
